@@ -230,14 +230,13 @@ def run(ctx):
         # (4) sub-step schedules in which the as-built model predicts a duplicate id, forced at the hook points
         sub = gen(ctx, "gen_sub.cfg", "SpecGenSub", "EmitSub", 2, SUBOPS, 2, 2, "sub")
         execute(ctx, sub, "sub", "go")
-        if not q:
-            sub3 = gen(ctx, "gen_sub3.cfg", "SpecGenSub", "EmitSub", 2, SUBOPS + ["RemoveFootnote"], 2, 3, "sub3",
-                       mode="sim", num=6000, depth=16, limit=2500)
-            execute(ctx, sub3, "sub3", "go")
+        sub3 = gen(ctx, "gen_sub3.cfg", "SpecGenSub", "EmitSub", 2, SUBOPS + ["RemoveFootnote"], 2, 3, "sub3",
+                   mode="sim", num=1500 if q else 6000, depth=16, limit=300 if q else 2500)
+        execute(ctx, sub3, "sub3", "go")
     if on("race"):
         # (5) the same programs free-running on one goroutine per document under the race detector
-        race = gen(ctx, "gen_race.cfg", "SpecGen", "Emit", 2, [o for o in CORE if o != "AddStyle"] if q else FULL, 1, 2, "race")
-        execute(ctx, unordered(ctx, race, "race"), "race", "race", rounds=12 if q else 20)
+        race = gen(ctx, "gen_race.cfg", "SpecGen", "Emit", 2, CORE if q else FULL, 1, 2, "race")
+        execute(ctx, unordered(ctx, race, "race"), "race", "race", rounds=20 if q else 30)
         if not q:
             race2 = gen(ctx, "gen_race2.cfg", "SpecGen", "Emit", 3, FULL, 3, 7, "race2", mode="sim", num=8, depth=8, limit=100)
             execute(ctx, unordered(ctx, race2, "race2"), "race2", "race", rounds=24)
@@ -254,8 +253,8 @@ def run(ctx):
         sim="3 documents, alphabet_full, %d calls, seeded random" % d,
         gate="one goroutine per document, every 1+1 schedule%s" % ("" if q else " over alphabet_full and every 2+1 schedule over alphabet_core"),
         sub="every schedule of 2 registry calls (1+1 and 2+0 excluded) at hook-point granularity in which the as-built model predicts a duplicate id"
-            + ("" if q else "; random ones of 3 calls"),
-        race="every unordered pair of single calls free-running under -race, %d rounds each" % (12 if q else 20),
+            + "; seeded random ones of 3 calls",
+        race="every unordered pair of single calls free-running under -race, %d rounds each" % (20 if q else 30),
         alphabet_core=CORE, alphabet_full=FULL)
     model_diag(ctx)
     return ctx.finish(LEVEL, RULE)
